@@ -14,6 +14,7 @@ def mkflow(ix, site, local_types=None, which=0, tab=None, env=None,
     conv = Conv(tab or Table(), env or {}, canon)
     if scalars:
         conv.tab.scalars = [Conv(conv.tab, {}, canon).parse(x) if isinstance(x, str) else x for x in scalars]
+    conv.tab.ret_len = _ret_len(ix)
     fl = Flow(f, conv)
     fl.conv.erase_broadcast = erase_broadcast
     fl.conv.forward_attrs = forward_attrs
@@ -475,8 +476,8 @@ class MergedReturn:
         self.n = n
 
 
-def the_return(fl, what='return'):
-    rets = fl.of('return')
+def the_return(fl, what='return', rets=None):
+    rets = fl.of('return') if rets is None else list(rets)
     if not rets:
         raise AnalysisError('no %s' % what)
     if len(rets) == 1 and not [g for g in rets[0].guards if not g.early]:
@@ -642,3 +643,32 @@ def resolve_guards(fl, rf, decide):
 
 def has_guard(rf):
     return isinstance(rf, RF) and rf.mentions(lambda a: a.head == 'guard')
+
+
+_RET_LEN = {}
+
+
+def _ret_len(ix):
+    """fn-name -> n when exactly one module-level function of that name exists in the analysed tree and every one of its
+    returns is a tuple literal of n items (so `f(x)[-1]` is `f(x)[n-1]`)"""
+    key = id(ix)
+    if key not in _RET_LEN:
+        table = {}
+        seen = {}
+        for m in ix.modules.values():
+            for name, f in m.functions.items():
+                seen.setdefault(name, []).append(f)
+        for name, fs in seen.items():
+            if len(fs) != 1:
+                continue
+            rets = [n for n in ast.walk(fs[0].node) if isinstance(n, ast.Return)]
+            nested = {id(r) for d in ast.walk(fs[0].node) if isinstance(d, (ast.FunctionDef, ast.Lambda)) and d is not fs[0].node
+                      for r in ast.walk(d) if isinstance(r, ast.Return)}
+            rets = [r for r in rets if id(r) not in nested]
+            lens = {len(r.value.elts) if isinstance(r.value, ast.Tuple) and not any(isinstance(e, ast.Starred) for e in r.value.elts)
+                    else None for r in rets}
+            if rets and len(lens) == 1 and None not in lens:
+                table['fn:' + name] = lens.pop()
+        _RET_LEN.clear()
+        _RET_LEN[key] = table
+    return lambda fn: _RET_LEN[key].get(fn)
